@@ -354,5 +354,5 @@ def units(tier):
         shapes += [("fff", [2, 1], {}), ("fdff", [2, 1], {})]
     for (p, f, o) in shapes:
         us.append(Unit("events[%s]" % RC.shape_name(p, f, o), M, "events", dict(pattern=p, folders=f, opts=o,
-                                                                              unroll=2 if tier == "quick" else 3), 1800))
+                                                                              unroll=2 if tier == "quick" else 3), 3600))   # (measured: fdff/2+1 at 3 decoder calls per member = 27 min)
     return us
